@@ -98,6 +98,7 @@ struct Sim {
   int fork_count = 0;
   bool deadlock = false;
   uint64_t stall_total = 0; // simulated time added by injected parent stalls
+  uint64_t spin_start_clock = 0, max_jump = 0; // busy-wait handling (see sched_point)
   uint64_t quiet_calls = 0;
   uint64_t read_by_index[8] = {0, 0, 0, 0, 0, 0, 0, 0}; // bytes the parent has read per pipe descriptor (creation order)
   uint64_t unread_stdout_at_exit = 0; // consecutive parent calls during which nothing in the world changed
@@ -250,12 +251,19 @@ void sched_point(const char* what, uint64_t arg = 0) {
   // Busy-waiting parent: nothing has changed for many calls. If the child is merely asleep this is a
   // (legal) long delay of the parent - jump to the child's wake-up instead of simulating every spin.
   // If the child is blocked for good or gone, spinning forever is a liveness failure.
+  if (g.quiet_calls == 0) g.spin_start_clock = g.clock;
   if (++g.quiet_calls > 200 && !g.gave_up) {
     if (g.ch.alive && g.ch.sleeping) {
-      add_sim_time_us(g.ch.wake > g.clock ? g.ch.wake - g.clock : 0);
-      g.clock = std::max(g.clock, g.ch.wake);
-      g.ch.sleeping = false;
-      g.quiet_calls = 0;
+      // Jump towards the child's wake-up, but never by more than a quarter of the time already spent
+      // spinning (at least 0.5 s): a deadline the parent is itself waiting for can then be overshot by at
+      // most that much, which the liveness bound adds back (max_jump).
+      uint64_t left = g.ch.wake > g.clock ? g.ch.wake - g.clock : 0;
+      uint64_t jump = std::min<uint64_t>(left, std::max<uint64_t>(500000, (g.clock - g.spin_start_clock) / 4));
+      add_sim_time_us(jump);
+      g.clock += jump;
+      g.max_jump = std::max(g.max_jump, jump);
+      if (g.clock >= g.ch.wake) g.ch.sleeping = false;
+      g.quiet_calls = 1; // still the same spin: keep spin_start_clock
       VS_PROBE("parent_busy_wait_skipped");
     } else if (g.quiet_calls > 20000) {
       sim_fail("liveness/livelock", g.ch.alive ? "child_blocked" : "child_gone",
@@ -991,7 +999,7 @@ void scen_run_process() {
     // timeout + poll granularity (1 s) + SIGTERM->SIGKILL grace (5 s) + another poll (1 s), plus the
     // delays the simulator itself injected (stalls, per-call costs, child step costs) - whether the
     // child honours SIGTERM or not
-    uint64_t bound = timeout + 1000000 + 5000000 + 1000000 + 500000 + g.stall_total + g.calls * 50 + c.steps * 5;
+    uint64_t bound = timeout + 1000000 + 5000000 + 1000000 + 500000 + g.stall_total + g.calls * 50 + c.steps * 5 + 2 * g.max_jump;
     if (t_end - t_start > bound) {
       fail("run_process/timeout_not_enforced", s.ignores_term ? s.family + "/ignores_sigterm" : s.family,
           "with a timeout of " + std::to_string(timeout) + " us the call took " + std::to_string(t_end - t_start) + " us of simulated time (bound " + std::to_string(bound) + " us" +
@@ -1189,7 +1197,7 @@ void scen_lifecycle() {
   // sit there for as long as the child pleases. Generous bound: 10 s of simulated time plus injected stalls.
   if (!threw && alive_at_destruction && t_destruct) {
     uint64_t took = g.clock - t_destruct;
-    uint64_t bound = 10000000 + (g.stall_total - stall_before) + g.calls * 50;
+    uint64_t bound = 10000000 + (g.stall_total - stall_before) + g.calls * 50 + 2 * g.max_jump;
     if (took > bound) {
       fail("lifecycle/destructor_waited_for_child", s.ignores_term ? "child_ignores_sigterm" : s.family,
           "~Subprocess took " + std::to_string(took) + " us of simulated time to end a running child" + (s.ignores_term ? " that ignores SIGTERM" : ""));
